@@ -147,7 +147,7 @@ _BUILTIN = {
                 pointer_type=0x0f, compile_unit=0x11, structure_type=0x13, typedef=0x16,
                 base_type=0x24, const_type=0x26, enumerator=0x28, subprogram=0x2e,
                 template_value_parameter=0x30, variable=0x34, namespace=0x39,
-                partial_unit=0x3c, imported_unit=0x3d, type_unit=0x41),
+                partial_unit=0x3c, imported_unit=0x3d, type_unit=0x41, skeleton_unit=0x4a),
     "AT": dict(sibling=0x01, location=0x02, name=0x03, byte_size=0x0b, low_pc=0x11, high_pc=0x12,
                language=0x13, import_=0x18, const_value=0x1c, producer=0x25, comp_dir=0x1b,
                abstract_origin=0x31, data_member_location=0x38, decl_line=0x3b,
@@ -622,11 +622,14 @@ class Unit:
         self.imports = []               # Units this one imports (with multiplicity)
         self.level = 0                  # partial units: import nesting level
         self.type_unit = False          # a DWARF 5 type unit in .debug_info (DW_UT_type, root DW_TAG_type_unit)
+        self.skeleton = False           # a DWARF 5 skeleton unit (DW_UT_skeleton, root DW_TAG_skeleton_unit)
 
     @property
     def header_size(self):
         if self.type_unit:
             return 24
+        if self.skeleton:
+            return 20
         return 12 if self.version >= 5 else 11
 
     @property
@@ -790,12 +793,14 @@ class Forest:
             length = u.header_size - 4 + len(body)
             hdr = struct.pack("<IH", length, u.version)
             if u.version >= 5:
-                hdr += bytes([DW_UT["type"] if u.type_unit else DW_UT["partial"] if u.partial else DW_UT["compile"],
+                hdr += bytes([DW_UT["type"] if u.type_unit else 0x04 if u.skeleton else DW_UT["partial"] if u.partial else DW_UT["compile"],
                               ADDRESS_SIZE])
                 hdr += struct.pack("<I", u.table.offset)
                 if u.type_unit:
                     # type_signature, type_offset (the root: the generator does not single out one type)
                     hdr += struct.pack("<QI", 0x7e57000000000000 + u.index, u.header_size)
+                elif u.skeleton:
+                    hdr += struct.pack("<Q", 0x5ce1e70000000000 + u.index)          # dwo_id
             else:
                 hdr += struct.pack("<I", u.table.offset) + bytes([ADDRESS_SIZE])
             assert len(hdr) == u.header_size
@@ -872,7 +877,7 @@ class Forest:
         units = []
         for u in self.units:
             units.append({"offset": u.offset, "version": u.version,
-                          "unit_type": "type" if u.type_unit else "partial" if u.partial else "compile",
+                          "unit_type": "type" if u.type_unit else "skeleton" if u.skeleton else "partial" if u.partial else "compile",
                           "header_size": u.header_size, "abbrev_offset": u.table.offset,
                           "address_size": ADDRESS_SIZE, "root": self._die(u.root),
                           "length": u.end - u.offset - 4, "end": u.end,
@@ -1024,7 +1029,7 @@ _SCOPE_TAGS = [("subprogram", 4), ("variable", 4), ("base_type", 3), ("typedef",
                ("const_type", 2), ("pointer_type", 2), ("enumeration_type", 2),
                ("structure_type", 2), ("namespace", 2)]
 _CHILD_TAGS = {
-    "compile_unit": _SCOPE_TAGS, "partial_unit": _SCOPE_TAGS, "type_unit": _SCOPE_TAGS, "namespace": _SCOPE_TAGS,
+    "compile_unit": _SCOPE_TAGS, "partial_unit": _SCOPE_TAGS, "type_unit": _SCOPE_TAGS, "skeleton_unit": _SCOPE_TAGS, "namespace": _SCOPE_TAGS,
     "subprogram": [("formal_parameter", 4), ("template_value_parameter", 1), ("variable", 3),
                    ("lexical_block", 2)],
     "lexical_block": [("variable", 4), ("lexical_block", 2)],
@@ -1647,7 +1652,7 @@ class ForestGen:
 
     def _build_unit(self, u):
         r = self.rng
-        root = Die(T["type_unit" if u.type_unit else "partial_unit" if u.partial else "compile_unit"], u)
+        root = Die(T["type_unit" if u.type_unit else "skeleton_unit" if u.skeleton else "partial_unit" if u.partial else "compile_unit"], u)
         u.root = root
         u.budget = self.opts["max_dies"] - 1 - len(u.imports)
         shape = self._weighted([("normal", 5), ("deep", 2), ("wide", 2), ("empty", 1), ("tiny", 1)])
@@ -1689,7 +1694,7 @@ class ForestGen:
         r = self.rng
         for target in u.imports:
             hosts = [d for d in u.root.walk()
-                     if self._tagname(d) in ("compile_unit", "partial_unit", "type_unit", "namespace",
+                     if self._tagname(d) in ("compile_unit", "partial_unit", "type_unit", "skeleton_unit", "namespace",
                                              "structure_type", "subprogram", "lexical_block")
                      and d.depth < self.opts["max_depth"]]
             host = u.root if self._chance(0.7) or not hosts else r.choice(hosts)
@@ -1952,7 +1957,10 @@ class ForestGen:
             for c in cus:
                 if (c.version >= 5 or 5 in o["versions"]) and self._chance(o["type_units"]):
                     c.version = 5
-                    c.type_unit = True
+                    if self._chance(0.35):
+                        c.skeleton = True
+                    else:
+                        c.type_unit = True
         for u in units:
             del u.imports[max(0, o["max_dies"] - 1):]
         return units
